@@ -800,10 +800,8 @@ func runInBubble(plan *Plan, res *Result) {
 				}
 				switch p.point {
 				case "exec.wait", "run.wait":
-					select {
-					case <-p.await:
+					if p.cond != nil && p.cond() {
 						late = append(late, p)
-					default:
 					}
 				case "run.persisted", "monitor.publish":
 					late = append(late, p)
